@@ -1,0 +1,58 @@
+//go:build verif
+
+package sr
+
+// Verification contracts (comments only), read by /verif/govc. Compiled only with -tags verif; no code.
+
+// ---- C36: Confluent wire-format header: magic 0, big-endian uint32 schema id, optional index ----
+
+//@ spec be32(s []byte, o int) uint32 = uint32(s[o])<<24 | uint32(s[o+1])<<16 | uint32(s[o+2])<<8 | uint32(s[o+3])
+
+//@ func (h *ConfluentHeader) DecodeID(b []byte) (id int, out []byte, err error)
+//@   mode bv
+//@   prop C36
+//@   nopanic
+//@   pure
+//@   ensures (len(b) < 5 || b[0] != 0) ==> err == ErrBadHeader && id == 0 && out == nil
+//@   ensures (len(b) >= 5 && b[0] == 0) ==> err == nil && out == b[5:] && id == int(be32(b, 1))
+//@   ensures 0 <= id && id < 1<<32
+
+//@ func (h *ConfluentHeader) UpdateID(b []byte, id uint32) (err error)
+//@   mode bv
+//@   prop C36
+//@   nopanic
+//@   modifies elems(b)
+//@   ensures (len(b) < 5 || old(b[0]) != 0) ==> err == ErrBadHeader && forall k in 0..len(b) :: b[k] == old(b[k])
+//@   ensures (len(b) >= 5 && old(b[0]) == 0) ==> err == nil && be32(b, 1) == id && b[0] == 0 && forall k in 5..len(b) :: b[k] == old(b[k])
+
+// The header written by AppendEncode: prefix kept, magic byte, id (DecodeID inverts it for 0 <= id < 2^32),
+// no index bytes for an empty index, the single-zero shortcut for index [0].
+//@ func (h *ConfluentHeader) AppendEncode(b []byte, id int, index []int) (out []byte, err error)
+//@   mode int bv
+//@   prop C36
+//@   nopanic
+//@   loop 0 invariant [int] len(b) >= old(len(b)) + 6
+//@   ensures [int] err == nil
+//@   ensures [int] len(index) == 0 ==> len(out) == len(b) + 5
+//@   ensures [int] (len(index) == 1 && index[0] == 0) ==> len(out) == len(b) + 6
+//@   ensures [int] len(out) >= len(b) + 5
+//@   ensures [bv] len(index) == 0 ==> out[len(b)] == 0 && be32(out, len(b)+1) == uint32(id)
+//@   ensures [bv] (len(index) == 1 && old(index[0]) == 0) ==> out[len(b)] == 0 && be32(out, len(b)+1) == uint32(id) && out[len(b)+5] == 0
+//@   ensures [int] len(index) == 0 ==> forall k in 0..len(b) :: out[k] == old(b[k])
+
+// DecodeIndex never panics, whatever the bytes and whatever maxLength, and respects maxLength.
+//@ func (h *ConfluentHeader) DecodeIndex(b []byte, maxLength int) (index []int, out []byte, err error)
+//@   mode int
+//@   prop C36
+//@   nopanic
+//@   loop 0 invariant 0 <= i && i <= l && len(index) == int(i) && 0 < l && (maxLength > 0 ==> int(l) <= maxLength)
+//@   ensures err == nil ==> 1 <= len(index)
+//@   ensures err == nil && maxLength > 0 ==> len(index) <= maxLength
+
+//@ func (b *bReader) ReadByte() (r byte, err error)
+//@   mode int
+//@   prop C36
+//@   nopanic
+//@   modifies b.b
+//@   ensures old(len(b.b)) > 0 ==> err == nil && r == old(b.b[0]) && b.b == old(b.b[1:])
+//@   ensures old(len(b.b)) == 0 ==> err == io.EOF && b.b == old(b.b)
